@@ -107,7 +107,7 @@ def parse_template(text, base_dir='.'):
             spec = s[len('//@extract '):]
             segs = [x.strip() for x in spec.split(' >> ')]
             cur = dict(file=segs[0], path=segs[1:], obligs=[], ret=None, spec=[], loops={}, inserts=[], desugar={}, loopbody={}, preloop={},
-                       external=False, keep_attrs=False, subs=[], rename=None, tline=ln)
+                       external=False, keep_attrs=False, subs=[], rename=None, attr=None, slice=None, tline=ln)
             sec = None
             continue
         if s.startswith('//@|'):
@@ -150,6 +150,17 @@ def parse_template(text, base_dir='.'):
                 cur['inserts'].append(dict(where=kw, lit=m.group(1).replace('\\"', '"'), nth=int(m.group(2) or 1), lines=sec))
             elif kw == 'external':
                 cur['external'] = True
+                sec = None
+            elif kw == 'slice':
+                # R11: verify the tail of a fn body as a fn of its own:  //@| slice "first statement of the tail"  followed by //@: signature lines
+                m = re.match(r'"((?:[^"\\]|\\.)*)"$', rest)
+                if not m:
+                    raise TemplateError('line %d: bad slice directive' % ln)
+                sec = []
+                cur['slice'] = dict(lit=m.group(1).replace('\\"', '"'), lines=sec)
+            elif kw == 'attr':
+                # verifier attribute put in front of the extracted fn (e.g. #[verifier::rlimit(200)]); never changes the fn text
+                cur['attr'] = rest
                 sec = None
             elif kw == 'keep-attrs':
                 cur['keep_attrs'] = True
@@ -404,6 +415,8 @@ def extract(node, variant, report):
                     if in_pos < 0:
                         raise TemplateError('label on a loop that is not `for .. in`')
                     edits.append((in_pos + 2, in_pos + 2, ' %s:' % l['label'], 'loop'))
+        if node.get('attr'):
+            edits.append((it.start, it.start, node['attr'] + ' ', 'attr'))
         if node['external']:
             if it.body_open < 0:
                 raise TemplateError('external on bodiless fn')
@@ -442,6 +455,24 @@ def extract(node, variant, report):
             raise TemplateError('sub anchor %r ambiguous in %s' % (old, node['path']))
         edits.append((pos, pos + len(old), new, 'MR'))
         report['manual_rewrites'].append(dict(item=' >> '.join([node['file']] + node['path']), old=old, new=new, reason=why))
+    if node.get('slice'):
+        # R11: the statements of the fn body from the anchor to the end become the body of a fn whose parameters are the locals
+        # (and fields of self) live at that point, with the types they have in the source; everything before the anchor is dropped.
+        if it.kind != 'fn' or it.body_open < 0:
+            raise TemplateError('slice on a non-fn item: %s' % node['path'])
+        sl = node['slice']
+        apos = text.find(sl['lit'], it.body_open, it.end)
+        if apos < 0:
+            raise AnchorLost('%s: slice anchor %r not found in %s' % (node['file'], sl['lit'], ' >> '.join(node['path'])))
+        if text.find(sl['lit'], apos + 1, it.end) >= 0:
+            raise TemplateError('slice anchor %r ambiguous in %s' % (sl['lit'], node['path']))
+        sig = '\n'.join(_pick(h, variant) for h in sl['lines'])
+        spec_txt = '\n'.join(_pick(h, variant) for h in node['spec'])
+        edits = [e for e in edits if e[0] >= apos]
+        edits.append((it.start, apos, sig + '\n' + spec_txt + '\n{\n', 'R11'))
+        rule('R11')
+        report.setdefault('slices', []).append(dict(item=' >> '.join([node['file']] + node['path']), from_line=src.line_of(apos), fn_line=src.line_of(it.head),
+                                                    dropped='statements of the fn body before line %d' % src.line_of(apos)))
     # apply edits
     edits.sort(key=lambda e: (e[0], e[1]))
     out = []
